@@ -102,7 +102,7 @@ func resolveConfigsEnvironment(dict map[string]any, environment types.Mapping) {
 			continue
 		}
 		if found, ok := environment[env]; ok {
-			config["content"] = found
+			config[types.SecretConfigXValue] = found
 		}
 		configs[name] = config
 	}
